@@ -582,10 +582,13 @@ pub fn w2_items(max_n: usize) -> Vec<Shape> {
 
 /// Generation churn: recycle few slots tens of thousands of times.
 /// Light-weight bookkeeping (no per-step clones) so that 10^5 cycles are cheap.
-pub fn run_w3(ctx: &Ctx, nslots: usize, cycles: u64, with_subtrees: bool, cov: &mut Cov) -> Option<Violation> {
+pub fn run_w3(ctx: &Ctx, nslots: usize, cycles: u64, mode: u8, cov: &mut Cov) -> Option<Violation> {
+    // mode 0: plain ping-pong, 1: + remove_subtree bursts, 2: + rotating fresh companion slots
+    let with_subtrees = mode == 1;
+    let companions = mode == 2;
     use crate::payload::Plain;
     use indextree::NodeId;
-    let workload = format!("w3-{}slots-{}cycles{}", nslots, cycles, if with_subtrees { "-subtree" } else { "" });
+    let workload = format!("w3-{}slots-{}cycles{}", nslots, cycles, match mode { 1 => "-subtree", 2 => "-companions", _ => "" });
     let mut rng = Rng::derive(ctx.seed, 4, nslots as u64 * 1000 + cycles);
     let mut arena: Arena<Plain> = Arena::new();
     // (id, slot, removed)
@@ -677,6 +680,18 @@ pub fn run_w3(ctx: &Ctx, nslots: usize, cycles: u64, with_subtrees: bool, cov: &
             Err(v) => return v,
         }
     }
+    // rotating companions: slots that are recycled only rarely, so that a worn-out slot and a
+    // fresh free slot are on the free list at the same time
+    const NCOMP: usize = 3000;
+    let mut comp: Vec<usize> = Vec::new();
+    if companions {
+        for _ in 0..NCOMP {
+            match alloc(&mut arena, None, &mut hist, &mut issued, &mut recycles, &mut retired, &mut free, 0) {
+                Ok(i) => comp.push(i),
+                Err(v) => return v,
+            }
+        }
+    }
     let check_ids = |arena: &Arena<Plain>, hist: &Vec<(NodeId, usize, bool)>, idxs: &mut dyn Iterator<Item = usize>, cyc: u64, recycles: &Vec<u32>| -> Option<Violation> {
         for i in idxs {
             let (id, slot, removed) = hist[i];
@@ -724,6 +739,32 @@ pub fn run_w3(ctx: &Ctx, nslots: usize, cycles: u64, with_subtrees: bool, cov: &
                     Err(v) => return v,
                 }
             }
+        } else if companions {
+            // free the churned node and one rarely used companion (order alternates), then allocate twice
+            let j = (cyc as usize / 2) % comp.len();
+            let (first, second) = if cyc % 2 == 0 { (cur[k], comp[j]) } else { (comp[j], cur[k]) };
+            let worn_slot = hist[cur[k]].1;
+            for i in [first, second] {
+                let id = hist[i].0;
+                if let Err(p) = guarded(|| id.remove(&mut arena)) {
+                    return viol("remove-panic", p, cyc);
+                }
+                hist[i].2 = true;
+                free.push(hist[i].1);
+            }
+            let mut got = Vec::new();
+            for _ in 0..2 {
+                match alloc(&mut arena, None, &mut hist, &mut issued, &mut recycles, &mut retired, &mut free, cyc) {
+                    Ok(i) => got.push(i),
+                    Err(v) => return v,
+                }
+            }
+            // keep churning the same storage slot as long as it is handed out
+            if hist[got[1]].1 == worn_slot {
+                got.swap(0, 1);
+            }
+            cur[k] = got[0];
+            comp[j] = got[1];
         } else {
             let i = cur[k];
             let id = hist[i].0;
@@ -774,7 +815,7 @@ pub fn run_w3(ctx: &Ctx, nslots: usize, cycles: u64, with_subtrees: bool, cov: &
                 return viol("bystander-changed", "the bystander tree changed during churn".into(), cyc);
             }
         }
-        cov.distinct.insert(mix2(recycles[hist[cur[k]].1] as u64, (k as u64) << 40 | with_subtrees as u64));
+        cov.distinct.insert(mix2(recycles[hist[cur[k]].1] as u64, (k as u64) << 40 | mode as u64));
     }
     cov.calls += cycles * 2;
     cov.evaluations += cycles;
